@@ -4,15 +4,21 @@ sys.path.insert(0, os.path.join(os.path.dirname(os.path.abspath(__file__)), ".."
 import vf
 
 PID = "C18"
-MODS = ["a", "b", "c", "pkg", "pkg.sub", "other", "imp"]
+MODS = ["a", "b", "c", "pkg", "pkg.sub", "other", "imp", "tool"]
 # imp tries `import frag` (a module that does not compile; the SyntaxError is swallowed) and then imports other.  A failing
 # load executes nothing and caches nothing, so frag does not appear in the model's dependency table.
-DEPS = {"a": ["b"], "b": [], "c": ["a"], "pkg": ["pkg.sub"], "pkg.sub": [], "other": [], "imp": ["other"]}
+# tool is a helper module the spy typecheckers import: it is first imported when a typechecker module is, i.e. while the first
+# function of a module hooked with a (non-None) checker is being decorated -- per run, an extra dependency of those modules.
+DEPS = {"a": ["b"], "b": [], "c": ["a"], "pkg": ["pkg.sub"], "pkg.sub": [], "other": [], "imp": ["other"], "tool": []}
+
+
+def deps_of_run(hm, disable=False):
+    return {m: DEPS[m] + (["tool"] if m != "tool" and hm.get(m) not in (None, "None") else []) for m in DEPS}
 BASE_MTIME = 1_000_000_000          # sources look old (as after `cp -p` / tar extraction): older than the installed jaxtyping
 
 
 def path_of(root, m):
-    return {"a": "a.py", "b": "b.py", "c": "c.py", "pkg": "pkg/__init__.py", "pkg.sub": "pkg/sub.py", "other": "other.py", "imp": "imp.py"}[m]
+    return {"a": "a.py", "b": "b.py", "c": "c.py", "pkg": "pkg/__init__.py", "pkg.sub": "pkg/sub.py", "other": "other.py", "imp": "imp.py", "tool": "tool.py"}[m]
 
 
 def write_module(root, m, version, stamp):
@@ -32,7 +38,7 @@ def make_forest(root):
     os.utime(root + "/frag.py", (BASE_MTIME, BASE_MTIME))
     open(root + "/spyreg.py", "w").write("LOG = []\n")
     for k in ("A", "B"):
-        open(root + "/spy%s.py" % k, "w").write("import spyreg\n\ndef check(fn, *a, **k):\n    spyreg.LOG.append((getattr(fn, '__module__', None), getattr(fn, '__qualname__', None), %r))\n    return fn\n" % k)
+        open(root + "/spy%s.py" % k, "w").write("import spyreg\n\ndef check(fn, *a, **k):\n    spyreg.LOG.append((getattr(fn, '__module__', None), getattr(fn, '__qualname__', None), %r))\n    return fn\n\nimport tool\n" % k)
 
 
 def gen_history(rng):
@@ -40,19 +46,22 @@ def gen_history(rng):
     for _ in range(rng.choice([2, 2, 3, 4, 5])):
         hooked = {}
         chk = rng.choice(["A", "A", "B", None])
-        names = [m for m in ["a", "b", "c", "pkg", "other", "imp", "frag"] if rng.random() < .4]
+        names = [m for m in ["a", "b", "c", "pkg", "other", "imp", "frag", "tool"] if rng.random() < .4]
         groups = [[names, chk]] if names else []
         if rng.random() < .2:
             extra = [m for m in ["a", "b", "other"] if m not in names and rng.random() < .5]
             if extra:
                 groups.append([extra, rng.choice(["A", "B"])])
-        order = rng.sample(["a", "b", "c", "pkg", "other", "imp"], rng.choice([1, 2, 3, 4]))
+        order = rng.sample(["a", "b", "c", "pkg", "other", "imp", "tool"], rng.choice([1, 2, 3, 4]))
         edits = [m for m in MODS if rng.random() < .12]
         runs.append({"groups": groups, "order": order, "edits": edits, "disable": rng.random() < .12})
     return runs
 
 
 CATALOGUE = [
+    # the typechecker's own module (and what it imports: tool) is first imported by a hooked module; later runs hook tool
+    [{"groups": [[["a"], "A"]], "order": ["a"], "edits": []}, {"groups": [[["a", "tool"], "A"]], "order": ["a", "tool"], "edits": []}, {"groups": [], "order": ["tool", "a"], "edits": []}],
+    [{"groups": [[["tool", "b"], "B"]], "order": ["b"], "edits": []}, {"groups": [[["b"], "B"]], "order": ["b"], "edits": []}],
     # nested import of an un-hooked module inside a hooked one, then hooking it (and the converse)
     [{"groups": [[["a"], "A"]], "order": ["a"], "edits": []}, {"groups": [[["a", "b"], "A"]], "order": ["a"], "edits": []}],
     [{"groups": [[["a", "b"], "A"]], "order": ["a"], "edits": []}, {"groups": [[["a"], "A"]], "order": ["a"], "edits": []}],
@@ -86,9 +95,10 @@ def hooked_map(groups):
 def run_coq(runs_with_versions):
     rs = []
     for hm, versions, order in runs_with_versions:
+        deps = deps_of_run(hm)
         rs.append("(mkrun %s %s %s %s)" % (vf.coqlist(sorted(hm.items()), lambda kv: "(%s, %s)" % (vf.coqstr(kv[0]), vf.coqstr(kv[1]))),
                                         vf.coqlist(sorted(versions.items()), lambda kv: "(%s, %d)" % (vf.coqstr(kv[0]), kv[1])),
-                                        vf.coqlist(sorted(DEPS.items()), lambda kv: "(%s, %s)" % (vf.coqstr(kv[0]), vf.coqlist(kv[1], vf.coqstr))),
+                                        vf.coqlist(sorted(deps.items()), lambda kv: "(%s, %s)" % (vf.coqstr(kv[0]), vf.coqlist(kv[1], vf.coqstr))),
                                         vf.coqlist(order, vf.coqstr)))
     return "[" + "; ".join(rs) + "]"
 
